@@ -78,7 +78,7 @@ func genC06(t *rapid.T) c06Case {
 		}
 		return out
 	}
-	h := kit.GenHistory(t, c06Cfg, 18, 3, false, 75, func(t *rapid.T, l string, m *kit.Model) kit.Op {
+	h := kit.GenHistory(t, c06Cfg, 18, 3, true, 75, func(t *rapid.T, l string, m *kit.Model) kit.Op {
 		x := rapid.IntRange(0, 99).Draw(t, l+"_what")
 		if x < 30 && len(m.Ents["things"]) > 0 && len(m.Ents["targets"]) > 0 {
 			// link operation
